@@ -64,6 +64,11 @@ func dialRawWith(addr, ep, name, token string, serve func(net.Conn)) (*rawUpstre
 	if token != "" {
 		h.Set("Authorization", "Bearer "+token)
 	}
+	return dialRawHdr(addr, ep, name, h, serve)
+}
+
+// dialRawHdr: the upstream handshake with the given headers (token, tenant).
+func dialRawHdr(addr, ep, name string, h http.Header, serve func(net.Conn)) (*rawUpstream, error) {
 	d := &websocket.Dialer{HandshakeTimeout: 20 * time.Second}
 	ws, resp, err := d.Dial("ws://"+addr+"/piko/v1/upstream/"+ep, h)
 	if err != nil {
